@@ -13,7 +13,8 @@
 (*      trigonometric / logarithmic functions and huge bindings are covered)    *)
 (* An outcome: c = "num" (ip = floor, fp = millionths), "big" (sg, ex, mt: sign, *)
 (* decimal exponent, 7 digits), "nan", "pinf", "ninf", "err" (rejected at       *)
-(* compile time), "panic".                                                      *)
+(* compile time), "panic"; x = the exact result (the text `{! ..}` printed, or  *)
+(* the float64 in shortest round-trip form).                                    *)
 (* The trace spec is total: every record is consumed; the records the           *)
 (* specification cannot explain are collected in `bad`.                         *)
 EXTENDS MathExpr, Json
@@ -31,6 +32,7 @@ Close(g, v) ==
        /\ AbsI(A * 1000000 + g.fp * v.d) <= 100 * v.d
 Agree(a, b) ==
   /\ a.c = b.c
+  /\ a.x = b.x                             \* the exact result text: the law needs no tolerance
   /\ a.c = "num" => AbsI(a.ip - b.ip) <= 1 /\ AbsI((a.ip - b.ip) * 1000000 + (a.fp - b.fp)) <= 100
   /\ a.c = "big" => a.sg = b.sg /\ a.ex = b.ex /\ AbsI(a.mt - b.mt) <= 10
 
